@@ -1870,10 +1870,33 @@ func (query *Query) IsDual() bool {
 }
 
 func RegexComparison(left any, pattern string) (bool, error) {
-	regExpr := strings.ReplaceAll(strings.ToLower(pattern), "_", ".")
-	regExpr = strings.ReplaceAll(regExpr, "%", ".*")
-	regExpr = "^" + regExpr + "$"
-	return regexp.Match(regExpr, []byte(strings.ToLower(fmt.Sprintf("%v", left))))
+	// only % and _ are wildcards (unless escaped with a backslash); everything else is literal
+	var regExpr strings.Builder
+	regExpr.WriteString("(?s)^")
+	runes := []rune(strings.ToLower(pattern))
+	for i := 0; i < len(runes); i++ {
+		switch r := runes[i]; {
+		case r == '\\' && i+1 < len(runes) && (runes[i+1] == '%' || runes[i+1] == '_'):
+			{
+				i++
+				regExpr.WriteString(regexp.QuoteMeta(string(runes[i])))
+			}
+		case r == '%':
+			{
+				regExpr.WriteString(".*")
+			}
+		case r == '_':
+			{
+				regExpr.WriteString(".")
+			}
+		default:
+			{
+				regExpr.WriteString(regexp.QuoteMeta(string(r)))
+			}
+		}
+	}
+	regExpr.WriteString("$")
+	return regexp.MatchString(regExpr.String(), strings.ToLower(fmt.Sprintf("%v", left)))
 }
 
 func RegisterFunction(name string, function Function) {
